@@ -10,6 +10,10 @@ def contracts():
     return c05 + cr + ct + managers.contracts()
 
 
+
+def bounded(tier, seed):
+    return [{"name": "C04.bounded", "script": "native/bounded_C04.py", "timeout": 3000, "scope": "single CsvPath: fail()/fail_and_stop() firing at every line (and never) before/after a valid()/failed() observer, scans * and 1*; an error under 17 policies with/without 'fail'; named-paths groups of 2-3 members (all ordered pairs, a third of the triples; thorough all) x {collect_paths, collect_by_line}: results_manager.is_valid and manifest all_valid"}]
+
 LEVEL = "proof"
 EXPLANATION = ("Every function that can change or report the verdict is under contract: Fail/FailAll/Stopper._stop_me set it False exactly when "
                "fired, ErrorHandler._handle_if exactly under 'fail', Matcher.matches and _consider_line are monotone, Failed reports the current "
